@@ -78,9 +78,19 @@ def child(job, tmp, tag):
     return r.returncode, out, log, r.stdout[-800:]
 
 
-def one_crash(cfg, prior, op, kill_at, torn):
+def fs_scratch(cfg, prior, op):
+    """scratch directory of a case: every other case lives on /dev/shm (another file system than the system temp directory)"""
+    import tempfile
+    h = int(hashlib.sha256(repr((cfg, prior, op)).encode()).hexdigest(), 16)
+    if h % 2 and os.path.isdir('/dev/shm') and os.access('/dev/shm', os.W_OK) and not os.environ.get('VERIF_SCRATCH'):
+        return tempfile.mkdtemp(prefix='kf_', dir='/dev/shm')
+    return scratch_dir('kf')
+
+
+def one_crash(cfg, prior, op, kill_at, torn, base=None):
     """fresh directory, writer (killed before its kill_at-th gated call, or run to completion), then a reader process"""
-    tmp = scratch_dir('kf')
+    import tempfile
+    tmp = tempfile.mkdtemp(prefix='kf_', dir=base) if base else fs_scratch(cfg, prior, op)
     try:
         loc = loc_of(cfg, tmp)
         job = dict(role='run', cfg=cfg, loc=loc, root=tmp, prior=pickle.dumps(prior).hex(), op=pickle.dumps(op).hex(), kill_at=kill_at, torn=torn)
@@ -114,7 +124,7 @@ def norm_log(cfg, log):
             if len(parts) == 1: continue                               # rmdir(root) = ENOTEMPTY, removedirs() of os.renames
             d = name(parts[1])
             if len(parts) == 2:
-                if kind == 'rename': c = ['rename', d, '/'.join(name(x) for x in e[2].split(os.sep)[1:])]
+                if kind == 'rename': c = ['rename', d, '/'.join(name(x) for x in e[2].split(os.sep)[1:]) if e[2] else 'OUTSIDE-THE-ARCHIVE']
                 else: c = [kind, d]                                     # mkdir / rmdir
             else:
                 which = 'In' if parts[2].startswith(('input', '__args__')) else 'Out'
@@ -124,7 +134,7 @@ def norm_log(cfg, log):
                 else: c = [dict(creat='creat', write='write', unlink='unlink')[kind] + which, d]
         else:
             if path == '.': continue
-            if kind == 'rename': c = ['rename', name(path)]
+            if kind == 'rename': c = ['rename', name(path)] + ([] if len(e) < 3 or e[2] == 'arch' + os.path.splitext(e[2] or '')[1] else ['to:' + str(e[2])])
             elif kind == 'unlink': c = ['unlinkTarget'] if not path.startswith('.I_') else ['unlinkTemp', name(path)]
             else: c = [kind, name(path)]
         calls.append(c); idxs.append(i)
